@@ -115,6 +115,15 @@ Theorem C10_reduction_kernel_hypothesis_inhabited : rkernel_ext rkz.
 Proof. exact rkz_ext. Qed.
 Print Assumptions C10_reduction_kernel_hypothesis_inhabited.
 
+(* a primitive with an OUTPUT-axis parameter (jax.nn.one_hot): move-to-front + axis canonicalised against the per-example output
+   rank + 1 is vmap for every rank / axis / batch dim; the rule of the unchanged tree (bind with the user's axis) is refuted *)
+Theorem C10_out_axis_rule_correct : forall (A B : Type) (k : A -> nat -> B) a C (x : tensor A) d,
+  d < rank x ->
+  teq (front (snd (out_axis_rule k a C x d)) (fst (out_axis_rule k a C x d)))
+      (stack0 (nth d (shape x) 0) (fun b => prim_out_axis k a C (slice d x b))).
+Proof. exact @out_axis_rule_correct. Qed.
+Print Assumptions C10_out_axis_rule_correct.
+
 (* ------------------------------------------------------------------ jit / nested jit / custom_jvp / custom_vjp / checkpoint *)
 Theorem C10_alpha_inline_ok : forall rho reg bi body bo c e,
   injective rho -> reg_equivariant rho reg -> ren_ctx rho c = c -> ren_eqn rho e = e ->
